@@ -183,8 +183,8 @@ async fn main() -> Result<()> {
             .map(|e| e.with_abort_on_failure(cli.abort_on_hook_failure))
     };
 
-    // Clean state files if requested
-    if cli.clean_state {
+    // Clean state files if requested (a dry run leaves them alone, like every other state file)
+    if cli.clean_state && !cli.dry_run {
         use sync::resume::ResumeState;
         if let Err(e) = ResumeState::delete(destination.path()) {
             tracing::warn!("Failed to clean state file: {}", e);
